@@ -324,7 +324,17 @@ static int seq_exec(seqst *s, opd const *o)
         size_t m = s->n + o->a % 40;
         if (s->is_buf)
         {
-            a_buf *nb = a_buf_setm(s->b, m);
+            a_buf *nb;
+            /* A capacity below the count is requested only when this very request is the one the plan refuses: then the call must
+               return null and leave count and elements alone (seeded change C07-I: the count is cut before the outcome of the
+               reallocation is known).  When the request would be granted the call is not made: what a granted one leaves behind
+               is outside this property. */
+            if (s->n >= 2 && (o->b & 1) && fail_at && (fail_persistent ? req_count + 1 >= fail_at : req_count + 1 == fail_at))
+            {
+                m = o->b / 2 % s->n;
+                VF_COUNT("buf-setm-below-the-count-refused");
+            }
+            nb = a_buf_setm(s->b, m);
             if (!nb) { return ST_FAIL; }
             s->b = nb;
             if (a_buf_mem(nb) != m) { FAIL("capacity", "mem %zu after setm(%zu)", a_buf_mem(nb), m); return ST_BROKEN; }
